@@ -57,3 +57,20 @@ Theorem C04_median_abs_dev n (v : R) xs x : 2 <= n <= pmax - 1 ->
       snd r = medad_def (Z.to_nat n) (hget v (rev (xs ++ [x]))).
 Proof. exact (medad_correct n v xs x). Qed.
 End C04.
+
+(** binary64: the median of finite inputs above half of the range is not lost to an overflow of the intermediate sum
+    (fix bdc3c4f: before it, SMM(1) fed 1.7e308 returned infinity) - kernel computation on the faithful model *)
+From Yata Require Import Base.NumF64.
+From Coq Require Import Floats.
+Example C04_smm_large_values_f64 :
+  match smm_new (pw := PW8) (N := NumF64) 1 1%float with
+  | Ok s => match smm_next (pw := PW8) s 0x1.e42d130773b76p+1023%float with
+            | Ok (_, y) => PrimFloat.eqb y 0x1.e42d130773b76p+1023%float = true
+            | _ => False end
+  | _ => False end /\
+  match smm_new (pw := PW8) (N := NumF64) 2 0x1.e42d130773b76p+1023%float with
+  | Ok s => match smm_next (pw := PW8) s 0x1.c7b1f3cac7433p+1023%float with
+            | Ok (_, y) => PrimFloat.is_finite y = true /\ PrimFloat.ltb 0x1.c7b1f3cac7433p+1023%float y = true /\ PrimFloat.ltb y 0x1.e42d130773b76p+1023%float = true
+            | _ => False end
+  | _ => False end.
+Proof. vm_compute. repeat split; reflexivity. Qed.
